@@ -323,6 +323,11 @@ def run_case(sh, s, d, case, script=None):
                 return None
             if exp is not None:
                 answered.add(backups.index(held[-1]))
+                if not os.path.exists(out + '.index'):
+                    # "together with a usable index": every backup saves the index of its state, recovery restores it
+                    sh.violation('c18:recover-restored-no-index-file', dict(wit, date=D, withverify=withverify,
+                                                                            expected_backup=backups.index(held[-1])), case)
+                    return None
                 if not withverify and os.path.exists(out + '.index') and len(exp) > 4:
                     a = FSM.FileStorage(out)
                     used = getattr(a, '_used_index', 0)
